@@ -58,8 +58,8 @@ func resReplay(s *Summary, raw json.RawMessage) {
 		if ctl.mask != mask {
 			continue
 		}
-		for rep := 0; rep < 6; rep++ {
-			resRun(s, &c, ctl, base, rep%3, rep >= 3)
+		for rep := 0; rep < 9; rep++ {
+			resRun(s, &c, ctl, base, rep%3, rep >= 3 && rep < 6, rep >= 6)
 		}
 		resStrict(s, &c, ctl, base)
 	}
@@ -102,7 +102,9 @@ func resStrict(s *Summary, c *resCase, ctl resCtl, base string) {
 }
 
 // placement 0: at top level; 1: inside a root-prefix group with three Use calls; 2: inside a group with the prefix /n
-func resRun(s *Summary, c *resCase, ctl resCtl, base string, placement int, legacy bool) {
+// twice: the same controller type is mounted under another base path first, and the application has a route of its own that
+// carries the name of one of the resource's actions: the measured mount is complete all the same
+func resRun(s *Summary, c *resCase, ctl resCtl, base string, placement int, legacy, twice bool) {
 	nested := placement == 1
 	outer := ""
 	if placement == 2 {
@@ -111,7 +113,7 @@ func resRun(s *Summary, c *resCase, ctl resCtl, base string, placement int, lega
 	name := strings.ToLower(ctl.name)
 	desc := func(aspect, what string) map[string]any {
 		return map[string]any{"kind": "resource", "aspect": aspect, "controller": ctl.name, "uses": ctl.uses, "base": base, "nested": nested, "outer_group": outer,
-			"what": fmt.Sprintf("Resource(%q, %s implementing %v, Uses=%v, inside a group with 3 Use calls=%v, inside Group(%q)): %s", base, ctl.name, c.Impl, ctl.uses, nested, outer, what)}
+			"what": fmt.Sprintf("Resource(%q, %s implementing %v, Uses=%v, inside a group with 3 Use calls=%v, inside Group(%q), after Resource(\"/m1/\") of the same type=%v): %s", base, ctl.name, c.Impl, ctl.uses, nested, outer, twice, what)}
 	}
 	// (every other run on a caching router, every probe sent twice: the second time the dynamic actions come from the cache)
 	var r *rux.Router
@@ -141,6 +143,10 @@ func resRun(s *Summary, c *resCase, ctl resCtl, base string, placement int, lega
 	grp := nested
 	func() {
 		defer func() { pan = recover() }()
+		if twice {
+			r.Resource("/m1/", ctl.mk())
+			r.AddNamed(strings.ToLower(ctl.name)+"_show", "/unrelated2", nopHandler)
+		}
 		if placement == 2 {
 			r.Group(outer, func() { r.Resource(base, ctl.mk()) })
 			return
@@ -172,7 +178,7 @@ func resRun(s *Summary, c *resCase, ctl resCtl, base string, placement int, lega
 	}
 	got := map[string]bool{}
 	for _, ri := range r.Routes() {
-		if ri.Path == "/unrelated" || (legacy && ri.Name == "") {
+		if ri.Path == "/unrelated" || (legacy && ri.Name == "") || (twice && (strings.HasPrefix(ri.Path, "/m1/") || ri.Path == "/unrelated2")) {
 			continue
 		}
 		ms := append([]string{}, ri.Methods...)
